@@ -33,4 +33,15 @@ PROPS = {
                         "reached-figures copy in apollo_compiler::parser (generic over a parse closure)",
                         "Cursor::advance itself (external_body: one call = one lexer item, never a limit error; second half checked syntactically)"],
     },
+    "C31": {
+        "level": "proof",
+        "kani": ["apollo-compiler/parser.rs"],
+        "frame": ["file_id_counter_single_fetch_add"],
+        "technique": "contract harnesses (assume/assert) on the real crate, discharged by Kani/CBMC over the full u64 domain, loop-free",
+        "explanation": "Kani proves on the real crate, for all 2^63 identifiers and both tags, unpack(pack(tag,id)) == (tag,id); and the sequential contract of "
+                       "FileId::new from every counter value (returns the old counter, advances it by one, never BUILT_IN/NONE/0, bit 63 clear, wraps to INITIAL). "
+                       "Pairwise distinctness under concurrency follows from this contract only with the atomicity of the single fetch_add (assumed; checked syntactically).",
+        "not_decided": ["interleavings of FileId::new across threads (atomicity of AtomicU64::fetch_add assumed; Kani has no threads)",
+                        "concurrent parse/validate/introspect equivalence (schedules)"],
+    },
 }
